@@ -16,6 +16,8 @@ Driver for C05.  Protocol (one case):
   strtab <hex>…                      → number of entries after interning the decoded string table
   xcompile <digest>…                 digests of the container bytes observed by the child processes
   xcycle <i> <digest>…               digests of the dump of cycle i observed by the child processes
+  xrepub <i> <digest>…               digests of the I/O images after publishing the state of cycle i again
+  xconst <digest>…                   digests of the never-assigned image ranges after the later cycles
   impl …                             (ignored here)
   end
 For `xcompile`/`xcycle` the model prints the common observation (`agree`) or `DIVERGE`.
@@ -128,6 +130,14 @@ def step (st : St) (line : String) : St × Option String :=
     | some d => (st, some ("m " ++ d))
     | none => (st, some "m DIVERGE")
   | "xcycle" :: _ :: ds =>
+    match agree ds with
+    | some d => (st, some ("m " ++ d))
+    | none => (st, some "m DIVERGE")
+  | "xrepub" :: _ :: ds =>
+    match agree ds with
+    | some d => (st, some ("m " ++ d))
+    | none => (st, some "m DIVERGE")
+  | "xconst" :: ds =>
     match agree ds with
     | some d => (st, some ("m " ++ d))
     | none => (st, some "m DIVERGE")
